@@ -26,12 +26,13 @@ func C02(c *Ctx) {
 	p.W[gast.StateCode] = 5
 	p.Alphabets = [][]rune{[]rune("ab\n"), []rune("aé\n"), []rune("a世\n😀"), []rune("ab"), []rune("\n\nxy")}
 	p.ActSpec = func(r *rand.Rand) mon.Spec { return mon.Spec{R: pick(r, 0, 0, 0, 1, 2, 3, 4)} }
-	p.PredSpec = func(r *rand.Rand) mon.Spec { return mon.Spec{B: pick(r, 0, 0, 1, 2, 4)} }
+	p.PredSpec = func(r *rand.Rand) mon.Spec { return mon.Spec{B: pick(r, 0, 0, 1, 4, 4)} }
 	p.StateSpec = func(r *rand.Rand) mon.Spec { return mon.Spec{S: pick(r, 1, 2, 3)} }
 	cfg := &MCConfig{
-		Profile: p, Grammars: c02Strata(), NGrammars: c.N(110, 1500),
+		Profile: p, Grammars: c02Strata(), NGrammars: c.N(200, 2000),
 		FlagSets:  [][]string{{}, {"-optimize-parser"}},
 		InputsPer: c.N(90, 200), ExhaustLimit: c.N(150, 800), ExhaustLen: 6,
+		OptSets:     []OptSet{{Name: "default"}, {Name: "memoize", Memo: true}},
 		Entrypoints: true, DebugEvery: 4,
 		Compare:    CmpTrace | CmpVal | CmpEnd | CmpOK,
 		NonTrivial: func(m *ref.Result) bool { return m.Backtracks >= 1 && len(m.Trace) >= 3 },
@@ -41,10 +42,38 @@ func C02(c *Ctx) {
 	c.ModelCheck(cfg)
 }
 
+// scopeStrata: for every construct that opens a label scope, a grammar in which the scope re-uses
+// the name of an outer label (binding it to a different value, also on an attempt that fails
+// afterwards) and blocks of the outer scope look at the label afterwards.
+func scopeStrata() []*gast.Grammar {
+	var out []*gast.Grammar
+	w := func() *gast.Expr { return gast.A(gast.Plus(gast.Cl(gast.Chars("ab"))), 9, mon.Spec{R: 2}) }
+	inner := func(id int) *gast.Expr {
+		return gast.S(gast.L(","), gast.Lab("a", gast.Ref("W")), gast.AndC(id, mon.Spec{}), gast.L(";"))
+	}
+	openers := map[string]func(e *gast.Expr) *gast.Expr{
+		"opt": gast.Opt, "star": gast.Star, "plus": func(e *gast.Expr) *gast.Expr { return gast.Opt(gast.Plus(e)) },
+		"and": func(e *gast.Expr) *gast.Expr { return gast.Opt(gast.AndE(e)) }, "not": func(e *gast.Expr) *gast.Expr { return gast.Opt(gast.NotE(e)) },
+		"choice": func(e *gast.Expr) *gast.Expr { return gast.C(e, gast.L("!"), gast.L("")) },
+		"label":  func(e *gast.Expr) *gast.Expr { return gast.Opt(gast.Lab("b", e)) },
+		"recovery": func(e *gast.Expr) *gast.Expr {
+			return gast.Opt(gast.Rec(e, gast.L("?"), "L1"))
+		},
+	}
+	for _, name := range []string{"opt", "star", "plus", "and", "not", "choice", "label", "recovery"} {
+		g := &gast.Grammar{Rules: []*gast.Rule{
+			{Name: "S", Expr: gast.A(gast.S(gast.Lab("a", gast.Ref("W")), openers[name](inner(2)), gast.AndC(3, mon.Spec{}), gast.Star(gast.Dot())), 1, mon.Spec{})},
+			{Name: "W", Expr: w()},
+		}}
+		out = append(out, g)
+	}
+	return out
+}
+
 func c02Strata() []*gast.Grammar {
 	mk := func(rules ...*gast.Rule) *gast.Grammar { return &gast.Grammar{Rules: rules} }
 	r := func(n string, e *gast.Expr) *gast.Rule { return &gast.Rule{Name: n, Expr: e} }
-	return []*gast.Grammar{
+	return append(scopeStrata(), []*gast.Grammar{
 		// predicate after an action: must see the current position and empty text
 		mk(r("S", gast.S(gast.Ref("A"), gast.L("b"), gast.AndC(2, mon.Spec{}), gast.Star(gast.Dot()))),
 			r("A", gast.A(gast.Plus(gast.L("a")), 1, mon.Spec{}))),
@@ -57,7 +86,7 @@ func c02Strata() []*gast.Grammar {
 		// action inside an alternative that is abandoned later
 		mk(r("S", gast.C(gast.S(gast.A(gast.Lab("a", gast.Plus(gast.Cl(gast.Chars("a\n")))), 1, mon.Spec{}), gast.L("x")),
 			gast.A(gast.Lab("b", gast.Star(gast.Dot())), 2, mon.Spec{})))),
-	}
+	}...)
 }
 
 // runKnownF02 executes the fixed witness of known finding F02.
@@ -102,10 +131,12 @@ func C05(c *Ctx) {
 	p.W[gast.AndCode] = 5
 	p.W[gast.NotCode] = 4
 	p.ActSpec = func(r *rand.Rand) mon.Spec { return mon.Spec{R: pick(r, 0, 0, 1, 3), Scr: r.Intn(3) == 0, G: r.Intn(2) == 0} }
-	p.PredSpec = func(r *rand.Rand) mon.Spec { return mon.Spec{B: pick(r, 0, 1, 3, 3, 4), Scr: r.Intn(3) == 0, G: r.Intn(3) == 0} }
+	p.PredSpec = func(r *rand.Rand) mon.Spec { return mon.Spec{B: pick(r, 0, 0, 1, 3, 3, 4), Scr: r.Intn(2) == 0, G: r.Intn(3) == 0} }
+	p.W[gast.AndCode] = 8
+	p.W[gast.NotCode] = 5
 	p.StateSpec = func(r *rand.Rand) mon.Spec { return mon.Spec{S: 1 + r.Intn(31), G: r.Intn(2) == 0} }
 	cfg := &MCConfig{
-		Profile: p, Grammars: c05Strata(), NGrammars: c.N(110, 1500),
+		Profile: p, Grammars: append(c05Strata(), rollbackStrata()...), NGrammars: c.N(110, 1500),
 		FlagSets:  [][]string{{}, {"-optimize-parser"}},
 		InputsPer: c.N(90, 200), ExhaustLimit: c.N(150, 800), ExhaustLen: 6,
 		OptSets: []OptSet{{Name: "default"}, {Name: "initstate=4", Init: 4}, {Name: "initstate=8", Init: 8}},
@@ -117,6 +148,45 @@ func C05(c *Ctx) {
 		KeepGrammar: func(g *gast.Grammar) bool { g.Finalize(); return g.UsesState },
 	}
 	c.ModelCheck(cfg)
+}
+
+// rollbackStrata: a state change (bare, inside an action, inside a label, inside a group) at the
+// head or in the middle of a sequence that fails afterwards, under every enclosing construct; an
+// observer block looks at the store afterwards.
+func rollbackStrata() []*gast.Grammar {
+	var out []*gast.Grammar
+	box := mon.Spec{S: 4 | 1 | 2}
+	id := 0
+	nid := func() int { id++; return id }
+	wrappers := []func() *gast.Expr{
+		func() *gast.Expr { return gast.St(nid(), box) },
+		func() *gast.Expr { return gast.A(gast.S(gast.L("a"), gast.St(nid(), box)), nid(), mon.Spec{}) },
+		func() *gast.Expr { return gast.Lab("x", gast.S(gast.St(nid(), box), gast.L("a"))) },
+		func() *gast.Expr { return gast.S(gast.Opt(gast.L("a")), gast.St(nid(), box)) },
+		func() *gast.Expr { return gast.C(gast.S(gast.L("a"), gast.St(nid(), box)), gast.St(nid(), box)) },
+	}
+	encl := []func(e *gast.Expr) *gast.Expr{
+		gast.Star, gast.Opt, func(e *gast.Expr) *gast.Expr { return gast.Opt(gast.Plus(e)) },
+		func(e *gast.Expr) *gast.Expr { return gast.C(e, gast.L("")) },
+		func(e *gast.Expr) *gast.Expr { return gast.Opt(gast.AndE(e)) }, func(e *gast.Expr) *gast.Expr { return gast.Opt(gast.NotE(e)) },
+		func(e *gast.Expr) *gast.Expr { return gast.Opt(gast.A(e, 99, mon.Spec{})) },
+	}
+	for wi := range wrappers {
+		for head := 0; head < 2; head++ {
+			for ei := range encl {
+				id = 10
+				var seq *gast.Expr
+				if head == 0 {
+					seq = gast.S(wrappers[wi](), gast.L("x"), gast.L("y"))
+				} else {
+					seq = gast.S(gast.L("a"), wrappers[wi](), gast.L("x"))
+				}
+				g := &gast.Grammar{Rules: []*gast.Rule{{Name: "S", Expr: gast.S(gast.St(1, box), encl[ei](seq), gast.AndC(2, mon.Spec{}), gast.Star(gast.Dot()), gast.AndC(3, mon.Spec{}))}}}
+				out = append(out, g)
+			}
+		}
+	}
+	return out
 }
 
 func c05Strata() []*gast.Grammar {
